@@ -415,7 +415,7 @@ func ttyApplyRef(r *refTerm, op ttyOp) {
 // ttyValidCons rejects console descriptions outside the generated domain
 // (hand-edited replay files).
 func ttyValidCons(c ttyCons) error {
-	if c.W < 1 || c.H < 1 || c.W > 640 || c.H > 200 {
+	if c.W < 1 || c.H < 1 || c.W > 640 || c.H > 300 {
 		return fmt.Errorf("console grid %dx%d outside the generated domain", c.W, c.H)
 	}
 	switch c.Kind {
